@@ -91,7 +91,7 @@ type c02 struct{}
 func init() { register(c02{}) }
 
 func (c02) ID() string           { return "C02" }
-func (c02) Runs(tier string) int { return tierLen(tier, 2500, 40000) }
+func (c02) Runs(tier string) int { return tierLen(tier, 8000, 60000) }
 
 func (c02) Gen(r *kern.Rng, tier string, idx int) *Trace {
 	maxLen := tierLen(tier, 300000, 2<<20)
@@ -168,7 +168,7 @@ type c03 struct{}
 func init() { register(c03{}) }
 
 func (c03) ID() string           { return "C03" }
-func (c03) Runs(tier string) int { return tierLen(tier, 4000, 60000) }
+func (c03) Runs(tier string) int { return tierLen(tier, 5000, 32000) }
 
 func genMalformedInput(r *kern.Rng, maxLen int) scen.InputSpec {
 	var in scen.InputSpec
@@ -402,7 +402,7 @@ type c04 struct{}
 func init() { register(c04{}) }
 
 func (c04) ID() string           { return "C04" }
-func (c04) Runs(tier string) int { return tierLen(tier, 1200, 16000) }
+func (c04) Runs(tier string) int { return tierLen(tier, 2000, 16000) }
 
 func (c04) Gen(r *kern.Rng, tier string, idx int) *Trace {
 	maxLen := tierLen(tier, 200000, 1<<20)
@@ -560,7 +560,7 @@ type c05 struct{}
 func init() { register(c05{}) }
 
 func (c05) ID() string           { return "C05" }
-func (c05) Runs(tier string) int { return tierLen(tier, 2500, 30000) }
+func (c05) Runs(tier string) int { return tierLen(tier, 6000, 40000) }
 
 func (c05) Gen(r *kern.Rng, tier string, idx int) *Trace {
 	pkg := []string{"flate", "flate", "gzip", "zlib"}[r.Intn(4)]
@@ -665,7 +665,7 @@ type c13 struct{}
 func init() { register(c13{}) }
 
 func (c13) ID() string           { return "C13" }
-func (c13) Runs(tier string) int { return tierLen(tier, 2500, 30000) }
+func (c13) Runs(tier string) int { return tierLen(tier, 5000, 40000) }
 
 func (c13) Gen(r *kern.Rng, tier string, idx int) *Trace {
 	pkg := []string{"flate", "flate", "flate", "gzip", "zlib"}[r.Intn(5)]
@@ -815,7 +815,7 @@ type c15 struct{}
 func init() { register(c15{}) }
 
 func (c15) ID() string           { return "C15" }
-func (c15) Runs(tier string) int { return tierLen(tier, 600, 6000) }
+func (c15) Runs(tier string) int { return tierLen(tier, 400, 1600) }
 
 func (c15) Gen(r *kern.Rng, tier string, idx int) *Trace {
 	pkg := []string{"flate", "flate", "gzip", "zlib"}[r.Intn(4)]
@@ -970,7 +970,7 @@ type c18 struct{}
 func init() { register(c18{}) }
 
 func (c18) ID() string           { return "C18" }
-func (c18) Runs(tier string) int { return tierLen(tier, 4000, 60000) }
+func (c18) Runs(tier string) int { return tierLen(tier, 10000, 80000) }
 
 func (c18) Gen(r *kern.Rng, tier string, idx int) *Trace {
 	if idx%5 == 4 {
